@@ -120,10 +120,7 @@ func NewBitmapServer(bm Bitmap, hold bool) *BitmapServer {
 	for i := range bm.Series {
 		s.bits = append(s.bits, bm.Expand(i))
 	}
-	ln, err := net.Listen("tcp4", "127.0.0.1:0")
-	if err != nil {
-		panic(err)
-	}
+	ln := Listen()
 	s.ln = ln
 	s.srv = &http.Server{Handler: http.HandlerFunc(s.handle)}
 	go func() { _ = s.srv.Serve(ln) }()
